@@ -117,7 +117,7 @@ Definition norm_tab_ok (f : pfield) (tabs : libtabs) : bool :=
     let q := fval f 0 i j * fval f 0 i j + fval f 1 i j * fval f 1 i j in
     Qle_bool 0 s && qclose rgba_tol (Qmax q 1) (s * s) q).
 
-Definition check_C20 (c : c20_case) : bool :=
+Definition check_C20_core (c : c20_case) : bool :=
   match c with
   | CScalar contour f mu flt obs =>
       match (if contour then plot_contour f mu flt else plot_scalar f mu flt), obs with
@@ -168,6 +168,36 @@ Definition check_C20 (c : c20_case) : bool :=
       | _, _ => false
       end
   end.
+
+(* Default multiplier near a threshold: region.edges = pmax - pmin is a rounded float difference, so
+   an edge within 1e-12 (relative) of a power of 1000 may fall on either side of it.  Both
+   neighbouring multipliers are then admissible (decisions are compared only away from thresholds). *)
+Definition thr_delta : Q := 1 # 1000000000000.
+Definition mu_cands (r : region) (mu : mult_arg) : list mult_arg :=
+  match mu with
+  | MDefault =>
+      match si_max_multiplier (map (fun e => e * (1 - thr_delta)) (edges r)),
+            si_max_multiplier (map (fun e => e * (1 + thr_delta)) (edges r)) with
+      | OK a, OK b => if (a =? b)%Z then [MDefault] else [MDefault; MSI a; MSI b]
+      | _, _ => [MDefault]
+      end
+  | _ => [mu]
+  end.
+Definition with_mu (c : c20_case) (mu : mult_arg) : c20_case :=
+  match c with
+  | CScalar ct f _ flt obs => CScalar ct f mu flt obs
+  | CVector f _ arg uc cf obs => CVector f mu arg uc cf obs
+  | CLight f _ flt lf clim tabs obs => CLight f mu flt lf clim tabs obs
+  | CCall f _ flt obs => CCall f mu flt obs
+  end.
+Definition case_field_mu (c : c20_case) : pfield * mult_arg :=
+  match c with
+  | CScalar _ f mu _ _ => (f, mu) | CVector f mu _ _ _ _ => (f, mu)
+  | CLight f mu _ _ _ _ _ => (f, mu) | CCall f mu _ _ => (f, mu)
+  end.
+Definition check_C20 (c : c20_case) : bool :=
+  let fm := case_field_mu c in
+  existsb (fun mu => check_C20_core (with_mu c mu)) (mu_cands (preg (fst fm)) (snd fm)).
 
 (* a record of the harness = one plot call, or a sequence of calls that share caller-side objects
    (style dictionaries, lists, Axes, the field): every call is checked against ITS OWN field *)
